@@ -1,9 +1,8 @@
 (* the static environment: two maps keyed by the lower-cased name *)
 Require Import ZArith NArith Bool List. Import ListNotations.
-Require Import F64 Dec Types GenUnicode.
-(* the key of a name is name.to_lowercase(): the per-character mappings of the regenerated tables (Gen/GenUnicode.v); names containing a capital sigma (whose lower case depends on the
-   position in the word) are not modelled - the driver reports them as UNMODELLED *)
-Definition fold_name (s:list N) : list N := flat_map u_lower s.
+Require Import F64 Dec Types GenUnicode CaseModel.
+(* the key of a name is name.to_lowercase(): CaseModel.v (tables regenerated from the toolchain, final-sigma rule included) *)
+Definition fold_name (s:list N) : list N := lower_str s.
 Record senv := { svars : list (list N * value); sfns : list (list N * (list N * N)) }.   (* functions: key -> (declared name, tag) *)
 Definition empty_env := {| svars := []; sfns := [] |}.
 Fixpoint aget {A} (k:list N) (l:list (list N * A)) : option A := match l with [] => None | (k', v) :: t => if leqb k' k then Some v else aget k t end.
